@@ -804,6 +804,7 @@ func Eval(n *Node, cur, root any) Tri {
 	if n.Leaf() || !boolOp(n.Op) {
 		return U
 	}
+	n = clone(n) // a sub-tree shared by two operands is two independent occurrences
 	g := anyCombo(n, cur, root)
 	if l := local(n, cur, root); l != g {
 		return U
@@ -815,6 +816,7 @@ func Eval(n *Node, cur, root any) Tri {
 // (used to build probes for the value-returning operators). ok is false if a
 // path is multi-valued or the value is open.
 func Value(n *Node, cur, root any) (any, bool) {
+	n = clone(n)
 	e := env{}
 	for _, lf := range pathLeaves(n, nil) {
 		vs, ok := lf.Path.Select(cur, root)
@@ -829,4 +831,15 @@ func Value(n *Node, cur, root any) (any, bool) {
 	}
 	r := eval(n, e, cur, root)
 	return r.V, !r.Any
+}
+
+// clone copies the operator/leaf nodes (constants and paths are immutable and
+// stay shared) so that every occurrence of a path is a distinct leaf.
+func clone(n *Node) *Node {
+	if n == nil {
+		return nil
+	}
+	c := *n
+	c.L, c.R = clone(n.L), clone(n.R)
+	return &c
 }
